@@ -101,6 +101,27 @@ func (in *Instrumenter) countSync(n ast.Node) int {
 	return c
 }
 
+// isRelease: a synchronisation operation that releases / publishes (and has no result).
+func (in *Instrumenter) isRelease(call *ast.CallExpr) bool {
+	if !in.isSyncCall(call) {
+		return false
+	}
+	switch fun := call.Fun.(type) {
+	case *ast.SelectorExpr:
+		switch fun.Sel.Name {
+		case "Unlock", "RUnlock", "Signal", "Broadcast", "Store", "Done":
+			return true
+		}
+	case *ast.Ident:
+		return fun.Name == "close"
+	}
+	return false
+}
+
+func syncAfterCall() ast.Stmt {
+	return &ast.ExprStmt{X: &ast.CallExpr{Fun: ast.NewIdent("verifSyncAfter")}}
+}
+
 func syncCall() ast.Stmt {
 	return &ast.ExprStmt{X: &ast.CallExpr{Fun: ast.NewIdent("verifSyncPoint")}}
 }
@@ -120,9 +141,13 @@ func (in *Instrumenter) list(stmts []ast.Stmt) []ast.Stmt {
 			if in.isSyncCall(s.Call) {
 				// defer x.Unlock()  =>  defer func() { verifSyncPoint(); x.Unlock() }()
 				in.N++
+				body := []ast.Stmt{syncCall(), &ast.ExprStmt{X: s.Call}}
+				if in.isRelease(s.Call) {
+					body = append(body, syncAfterCall())
+				}
 				s.Call = &ast.CallExpr{Fun: &ast.FuncLit{
 					Type: &ast.FuncType{Params: &ast.FieldList{}},
-					Body: &ast.BlockStmt{List: []ast.Stmt{syncCall(), &ast.ExprStmt{X: s.Call}}},
+					Body: &ast.BlockStmt{List: body},
 				}}
 			} else {
 				in.funcLits(s.Call)
@@ -171,6 +196,14 @@ func (in *Instrumenter) list(stmts []ast.Stmt) []ast.Stmt {
 			out = append(out, syncCall())
 		}
 		out = append(out, s)
+		switch s := s.(type) {
+		case *ast.ExprStmt:
+			if call, ok := s.X.(*ast.CallExpr); ok && in.isRelease(call) {
+				out = append(out, syncAfterCall())
+			}
+		case *ast.SendStmt:
+			out = append(out, syncAfterCall())
+		}
 	}
 	return out
 }
